@@ -72,9 +72,68 @@ class Mismatch(Exception):
 TOKEN = r'[A-Za-z_][\w:#@\.>]*(?:\[\d+\])?'
 
 
+def _closure_entries(s):
+    """`closure{a: X, b: Y}` -> [(a, X), (b, Y)] (top-level split; None if `s` is not a closure provenance)"""
+    if not (s.startswith('closure{') and s.endswith('}')):
+        return None
+    body = s[len('closure{'):-1]
+    parts = []; d = 0; cur = ''
+    for ch in body:
+        if ch in '([{':
+            d += 1
+        elif ch in ')]}':
+            d -= 1
+        if ch == ',' and d == 0:
+            parts.append(cur); cur = ''
+        else:
+            cur += ch
+    if cur.strip():
+        parts.append(cur)
+    out = []
+    for part in parts:
+        if ': ' not in part:
+            return None
+        k, v = part.strip().split(': ', 1)
+        out.append((k.strip(), v.strip()))
+    return out
+
+
+def _unify_closure(pe, ae, env):
+    """captured values are matched as a set: the *names* of captured variables are source-level identifiers (a rename must not
+    matter); the pattern's names are roles, and env['_caps'] records role -> actual capture name for the closure lemmas"""
+    if len(pe) != len(ae):
+        return False
+    def rec(i, used, e, caps):
+        if i == len(pe):
+            return e, caps
+        role, vp = pe[i]
+        order = sorted(range(len(ae)), key=lambda j: (ae[j][0] != role, j))      # same name first, then positional
+        for j in order:
+            if j in used:
+                continue
+            e2_ = dict(e)
+            if unify(vp, ae[j][1], e2_):
+                r = rec(i + 1, used | {j}, e2_, {**caps, role: ae[j][0]})
+                if r:
+                    return r
+        return None
+    r = rec(0, frozenset(), dict(env), {})
+    if not r:
+        return False
+    e, caps = r
+    env.update(e)
+    env['_caps'] = caps
+    return True
+
+
 def unify(pattern, actual, env):
     """pattern with $var placeholders against the provenance string `actual`; env is updated"""
     actual = norm(actual)
+    pe = _closure_entries(pattern)
+    if pe is not None:
+        ae = _closure_entries(actual)
+        if ae is not None:
+            return _unify_closure(pe, ae, env)
     rx = ''
     i = 0
     groups = []
@@ -135,6 +194,9 @@ def match_sequence(calls, expected, env=None, what=''):
         for k, ty in (opts.get('argtys') or {}).items():
             if norm(rec['argtys'][k]) != ty:
                 raise Mismatch(f'{what}: step {i + 1}: argument {k} of {callee} has type `{rec["argtys"][k]}`, expected `{ty}`')
+        caps = env.pop('_caps', None)
+        if caps is not None:
+            rec['caps'] = caps
         if bind:
             env[bind] = rec['result']
             env['rec:' + bind] = rec
